@@ -279,6 +279,12 @@ namespace c18
     }
   }
 
+  // implemented in gxfer.cpp (Global::Transfer around given matrices)
+  void global_transfer_sections(std::ostream& o, const MatrixType& prol, const MatrixType& rest, const MatrixType& trunc,
+    const VectorType& x, const VectorType& y);
+  void global_transfer_forbidden(std::ostream& o, int which, const MatrixType& prol, const MatrixType& rest,
+    const MatrixType& trunc, const VectorType& x, const VectorType& y);
+
   // polynomial sum_{a,b,c} coef * x^a y^b z^c (exponents < 4 each), coefficients listed as (a b c coef)*
   struct Poly
   {
@@ -404,6 +410,9 @@ namespace c18
       o << " XP "; show_vec(o, tp);
       o << " XR "; show_vec(o, tr);
       o << " XT "; show_vec(o, tt);
+      // 7. Global::Transfer (un-muxed, non-child muxer, single-process muxed) around the assembled matrices
+      o << " G";
+      global_transfer_sections(o, prol_d, rest, trunc_d, xc, yf);
       return;
     }
     if(op == "feo")
